@@ -7,7 +7,7 @@ KEEP_PREFIX = 0
 SIZES = {"quick": 6000, "thorough": 100000}
 BATCH = 4000
 EXTRA_MODULES = ("Sentinel.Lemmas.Chain",)
-RULE = ("1-4 real base.SlotChain objects per case assembled by Add*Slot from 0-9 recording slots per kind, order values drawn from a "
+RULE = ("1-4 real base.SlotChain objects per case assembled by Add*Slot from 0-9 (6 % of chains: 13-48) recording slots per kind, order values drawn from a "
         "small colliding pool incl. 0 and 2^32-1; rule slots pass / return nil / ShouldWait / panic / block (fresh result, pooled "
         "ctx.RuleCheckResult, slot-owned reused result) with block types 0-255; prepare and rule slots may register exit handlers "
         "(ok / error / panic); stat slots may panic in OnEntryPassed / OnEntryBlocked / OnCompleted; then 3-25 api.Entry calls "
@@ -80,12 +80,19 @@ def gen_case(rng, cid):
         name = "ABCD"[ci]
         pool = rng.choice(ORDER_POOLS)
         slots = []
+        big = rng.random() < 0.06      # > 12 / > 20 slots of one kind: beyond the insertion-sort ranges of package sort
         for kind, hi in (("p", 4), ("r", 9), ("s", 5)):
             n = rng.choice([0, 1, 2, 3, rng.randint(0, hi)])
+            if big and rng.random() < 0.6:
+                n = rng.choice([13, 21, 22, rng.randint(13, 48)])
             slots += [gen_slot(rng, kind, fresh(), pool, prof) for _ in range(n)]
         if rng.random() < 0.6:
             rng.shuffle(slots)
-        ops.append(("chain " + name + " " + " ".join(slots)).strip())
+        k = len(slots)
+        if big or rng.random() < 0.25:       # build (part of) the chain by single adds: same code path, shrinkable per slot
+            k = rng.randint(0, min(len(slots), 3))
+        ops.append(("chain " + name + " " + " ".join(slots[:k])).strip())
+        ops += [f"add {name} {x}" for x in slots[k:]]
         chains.append((name, pool))
     live, blocked, eid = [], [], 0
     for _ in range(rng.randint(3, 25)):
